@@ -668,8 +668,9 @@ def boolean_rows(a, b, operation=np.intersect1d):
         dtype = np.uint64
     else:
         dtype = np.int64
-    a = np.asanyarray(a, dtype=dtype)
-    b = np.asanyarray(b, dtype=dtype)
+    # a row can only be viewed as one record if it is contiguous
+    a = np.ascontiguousarray(a, dtype=dtype)
+    b = np.ascontiguousarray(b, dtype=dtype)
 
     av = a.view([("", a.dtype)] * a.shape[1]).ravel()
     bv = b.view([("", b.dtype)] * b.shape[1]).ravel()
